@@ -59,7 +59,7 @@ def make_y(pe, basis, n, layout, key):
     r = alpha.rng('c07', key, basis, n, layout)
     ys = []
     ncfg = 40
-    if layout in ('shared', 'mixed'):
+    if layout in ('shared', 'mixed', 'irrshared'):
         common = r.normal(size=ncfg)
     for i in range(n):
         xi = x[:, i] if basis == '2d' else x[i]
@@ -72,6 +72,16 @@ def make_y(pe, basis, n, layout, key):
         elif layout == 'shared':
             d = mean + sig * (0.6 * common + 0.8 * r.normal(size=ncfg))
             ys.append(pe.Obs([d], ['S|r1']))
+        elif layout == 'irrshared':
+            # one ensemble, but the points live on two DIFFERENT irregular configuration lists whose union has as many entries as the
+            # equally spaced list between its end points (without being it)
+            grid = list(range(2, 2 + 2 * ncfg, 2))
+            l1 = sorted(set(grid) - {8, 32} | {7, 31})
+            l2 = sorted(set(grid) - {8, 32})
+            cf = l1 if i % 2 == 0 else l2
+            comm = {c: v for c, v in zip(grid + [7, 31], np.concatenate([common, r.normal(size=2)]))} if i == 0 else comm
+            d = np.array([mean + sig * (0.6 * comm[c] + 0.8 * z) for c, z in zip(cf, r.normal(size=len(cf)))])
+            ys.append(pe.Obs([d], ['S|r1'], idl=[cf]))
         else:   # mixed: even points shared ensemble, odd points own ensemble, last one times a covariance input
             if i % 2 == 0:
                 d = mean + sig * (0.6 * common + 0.8 * r.normal(size=ncfg))
@@ -229,7 +239,7 @@ def prior_specs(npar):
 def build(tier, seed):
     cases = []
     for basis in BASES:
-        for layout in ('indep', 'shared', 'mixed'):
+        for layout in ('indep', 'shared', 'mixed', 'irrshared'):
             cases.append({'kind': 'single', 'basis': basis, 'layout': layout, 'n': 7 if BASES[basis][0] > 2 else 6})
             if tier == 'thorough':
                 # every number of data points from the smallest over-determined one to 10
